@@ -107,6 +107,8 @@ def all_strings(doc, key: str) -> list[str]:
 
 def run_case(ck: Check, camp, case: dict) -> None:
     doc, model, opts = case["doc"], case["model"], case["opts"]
+    if case.get("set_opts"):  # options whose value is a set travel as sorted lists (JSON); generate() wants the set
+        opts = {k: (set(v) if k in case["set_opts"] else v) for k, v in opts.items()}
     fm, target, ift, clean = case.get("formatters"), case.get("target"), case.get("input_file_type", "jsonschema"), case.get("clean", False)
     camp.evaluations += 1
     camp.hit(f"kind:{model}")
@@ -123,7 +125,15 @@ def run_case(ck: Check, camp, case: dict) -> None:
     if not res.ok:
         camp.hit(f"error:{res.error_type}")
         if res.error_type == "RecursionError":
-            ck.fail({**base, "mechanism": "recursion_error"}, case, f"RecursionError instead of a reported error: {res.error_msg}")
+            trig = "other"
+            if opts.get("collapse_root_models"):
+                # attribution for the recorded finding: the same document without --collapse-root-models is generated
+                o2 = {k: v for k, v in opts.items() if k != "collapse_root_models"}
+                r2 = e2e.run_generate(doc, input_file_type=ift, model=model, opts=o2, formatters=fm, timeout=15, target=target,
+                                      modular=bool(opts.get("treat_dot_as_module")) or case.get("modular", False))
+                if r2.ok:
+                    trig = "collapse_root_models"
+            ck.fail({**base, "mechanism": "recursion_error", "trigger": trig}, case, f"RecursionError instead of a reported error: {res.error_msg}")
         elif clean and not (fm and res.error_type in ("InvalidInput",)):
             ck.fail({**base, "mechanism": "error_on_supported_input", "error": res.error_type}, case,
                     f"well-formed input inside the documented feature set failed: {res.error_type}: {res.error_msg}")
@@ -265,21 +275,54 @@ def campaign_text_slots(ck: Check) -> None:
     camp.wall_s = time.time() - t0
 
 
+def _campaign_templates(ck: Check, quick: bool) -> None:
+    """Lean interpreter of the generated template ASTs vs the real Jinja templates (vlib/props/tpl_campaign.py)"""
+    try:
+        from . import tpl_campaign
+    except ImportError:
+        return
+    tpl_campaign.campaign_templates(ck, 60 if quick else 600)
+    tpl_campaign.campaign_tpl_strings(ck, 300 if quick else 3000)
+
+
 def run(ck: Check) -> None:
     quick = ck.tier == "quick"
-    from ..translate import esc, templates
+    from ..translate import esc, template_ast, templates
+    from . import tpl_search
 
     ck.translate("EscTables", esc.generate())
     ck.translate("Templates", templates.generate())
+    # the templates themselves, as a deep-embedded AST from jinja2's own parser: the template theorems
+    # (class_body_nonempty, class_body_lines_indented, …) are re-checked by the kernel against what the sources say now
+    ck.translate("TemplateAst", template_ast.generate())
+    from ..translate import code_sites
+
+    ck.translate("CodeSites", code_sites.generate())
+    ck.search_hooks.append(tpl_search.search)
     ck.prove()
     ck.assumptions += [
         "no Python grammar is modelled: grammatical validity of the emitted token skeletons is established by ast.parse(feature_version=target) over the campaign, not by a theorem",
         "the two fix-point loops of the JSON-Schema parser are modelled abstractly (a set that only grows inside the finite set of $ref strings of the document); that the code's sets only grow is by reading",
         "only Python 3.12 is available: other targets are checked with ast.parse(feature_version=…) only",
     ]
+    ck.assumptions += [
+        "template theorems: Jinja2 semantics are those of the interpreter Dcg/Model/Template (validated against the real "
+        "templates on every run by the campaign 'templates: Lean interpreter vs the real Jinja templates'); interpolated values "
+        "are assumed to satisfy the invariant of their reviewed site class (one line, not starting with a blank, not the keyword "
+        "class; header sites without '#'); docstring text needs no assumption",
+        "pydantic/Config.jinja2: `class Config:` has a body only under the invariant of model/pydantic/base_model.py that a "
+        "Config object has at least one field set (theorem config_class_body_nonempty is conditional on it)",
+    ]
     campaign_repr(ck, 1500 if quick else 20000)
     campaign_text_slots(ck)
     campaign_e2e(ck, 150 if quick else 2500, 200 if quick else 3500)
+    # after the older campaigns, so that their random streams are what they were before these were added
+    from . import c01_extra
+
+    c01_extra.campaign_yaml_text(ck, run_case, 120 if quick else 2500)
+    c01_extra.campaign_field_extras(ck, run_case)
+    _campaign_templates(ck, quick)
+    tpl_search.self_test(ck)
     known_findings(ck)
 
 
